@@ -167,14 +167,23 @@ class Cfg:
         self.time_lit = time_lit
 
 
+def exprs(depth, cfg=None, scale=True):
+    """A term of the full grammar with nesting depth <= depth; one draw in 25 is instead a term that
+    is large along one dimension of the size ladder (see `scaled`)."""
+    cfg = cfg or Cfg()
+    small = _exprs(depth, cfg)
+    if not scale or depth < 2:
+        return small
+    return st.one_of(*([small] * 24 + [scaled(cfg)]))
+
+
 @st.composite
-def exprs(draw, depth, cfg=None):
-    """A term of the full grammar with nesting depth <= depth."""
+def _exprs(draw, depth, cfg=None):
     cfg = cfg or Cfg()
     if depth <= 0 or draw(st.integers(0, 9)) < 2:
         return draw(leaves(cfg))
     pick = draw(st.integers(0, 99))
-    sub = exprs(depth - 1, cfg)
+    sub = _exprs(depth - 1, cfg)
     if pick < 22:
         return ("bool", draw(st.sampled_from(["and", "or"])), draw(sub), draw(sub))
     if pick < 44:
@@ -210,7 +219,7 @@ def leaves(cfg):
 
 @st.composite
 def calls(draw, depth, cfg):
-    sub = exprs(depth, cfg)
+    sub = _exprs(depth, cfg)
     if draw(st.integers(0, 2)) < 2:
         (ns, name), (lo, hi) = draw(st.sampled_from(BUILTINS))
         n = draw(st.integers(lo, hi))
@@ -252,10 +261,212 @@ def lambda_bodies(draw, depth, cfg, var):
     """A body that actually mentions the variable."""
     attr = draw(st.sampled_from(SAFE_NAMES))
     use = ("path", ident(var), attr) if draw(st.booleans()) else ident(var)
-    rest = draw(exprs(max(depth - 1, 0), cfg))
+    rest = draw(_exprs(max(depth - 1, 0), cfg))
     op = draw(st.sampled_from(["eq", "ne", "lt", "gt"]))
     core = ("cmp", op, use, rest)
     if depth > 0 and draw(st.booleans()):
-        other = draw(exprs(depth - 1, cfg))
+        other = draw(_exprs(depth - 1, cfg))
         return ("bool", draw(st.sampled_from(["and", "or"])), core, other)
     return core
+
+
+# ---- the size ladder ---------------------------------------------------------------------------
+# Sizes at which implementations commonly switch strategy (chunking, caching, iterative fallbacks,
+# fixed-width fields): powers of two and of ten and their neighbours. A scaled term is large along
+# exactly one dimension and carries a few drawn "special" sub-terms at boundary or random positions.
+
+LADDER = {
+    "list": [5, 8, 9, 10, 11, 12, 13, 16, 17, 25, 32, 33, 37, 64, 65, 100, 101, 129, 257, 1000, 1001],
+    "chain": [9, 12, 13, 14, 17, 33, 49, 50, 51, 64, 65, 66, 129],
+    "nest": [5, 6, 7, 9, 13, 17, 33, 65],
+    "hops": [5, 6, 8, 9, 10, 17, 33],
+    "args": [4, 5, 6, 9, 17, 33],
+    "name": [33, 64, 65, 66, 100, 127, 128],
+    "digits": [15, 16, 17, 18, 19, 20, 21, 25, 40],
+    "strlen": [16, 17, 33, 65, 129, 300, 1025],
+}
+BOUNDARY = [8, 9, 10, 12, 15, 16, 17, 31, 32, 33, 63, 64, 65, 99, 100, 127, 128, 255, 256, 999, 1000]
+
+
+def _positions(r, n, k):
+    """k positions in range(n): ends, ladder boundaries and random ones."""
+    cand = [0, n - 1, n - 2] + [b for b in BOUNDARY if b < n] + [r.randrange(n) for _ in range(3)]
+    cand = [c for c in cand if 0 <= c < n]
+    return sorted(set(r.sample(cand, min(k, len(cand)))))
+
+
+@st.composite
+def scaled(draw, cfg=None, dims=None):
+    import random
+    cfg = cfg or Cfg()
+    dim = draw(st.sampled_from(dims or sorted(LADDER)))
+    n = draw(st.sampled_from(LADDER[dim]))
+    r = random.Random(draw(st.integers(0, 2 ** 30)))
+    specials = [draw(_exprs(1, cfg)) for _ in range(3)]
+    small = [draw(_exprs(0, cfg)) for _ in range(3)]
+    t = _build_scaled(dim, n, r, specials, small, cfg)
+    ctx = draw(st.integers(0, 9))
+    if ctx == 0:
+        t = ("un", "not", t)
+    elif ctx == 1:
+        t = ("bool", "and", small[0], t)
+    elif ctx == 2:
+        t = ("bool", "or", t, small[1])
+    elif ctx == 3:
+        t = ("cmp", "eq", small[2], t)
+    elif ctx == 4:
+        t = ("bin", "add", small[0], t)
+    elif ctx == 5:
+        t = ("un", "neg", t)
+    return t
+
+
+def _lit_pool(r, kind):
+    if kind == 0:
+        return lambda i: ("lit", "int", str(i))
+    if kind == 1:
+        return lambda i: ("lit", "int", str(i % 3))              # many repeated values
+    if kind == 2:
+        return lambda i: ("lit", "str", ["a", "it's", "x', 'y", "a''b", "", "%_", "two  blanks", " lead", "tab\there"][i % 9] + str(i // 9 % 4))
+    if kind == 3:
+        return lambda i: [("lit", "int", str(i)), ("lit", "str", "s%d" % i), ("lit", "null", ""),
+                          ("lit", "float", "%d.5" % i), ("lit", "bool", "true"), ("lit", "date", "2020-01-01"),
+                          ("lit", "duration", "P1D"), ("lit", "guid", "00000000-0000-0000-0000-000000000000")][i % 8]
+    return lambda i: ident(SAFE_NAMES[i % len(SAFE_NAMES)])
+
+
+def _build_scaled(dim, n, r, specials, small, cfg):
+    if dim in ("list", "args"):
+        mk = _lit_pool(r, r.randrange(5))
+        items = [mk(i) for i in range(n)]
+        for p, sp in zip(_positions(r, n, r.randrange(0, 4)), specials):
+            items[p] = sp
+        if dim == "args":
+            name = r.choice(["f", "g", "myFunc", "concat", "contains"])
+            return ("call", name, r.choice(NAMESPACES), tuple(items))
+        lst = ("list", tuple(items))
+        k = r.randrange(10)
+        if k < 7:
+            return ("cmp", "in", small[0], lst)
+        if k < 9 and cfg.calls:
+            return ("call", "f", ("ns",), (lst, small[1]))
+        return ("cmp", "in", ("un", "neg", small[0]), lst)
+    if dim == "chain":
+        fam = r.choice([["and"], ["or"], ["and"], ["or"], ["add", "sub"], ["mul", "div", "mod"], ["sub"], ["div"],
+                        ["eq", "ne"], ["lt", "ge"]])
+        kind = {"and": "bool", "or": "bool"}.get(fam[0], "cmp" if fam[0] in ("eq", "ne", "lt", "ge") else "bin")
+        mk = _lit_pool(r, 4 if kind == "bool" else r.choice([0, 4]))
+        items = [mk(i) for i in range(n)]
+        other = {"and": "or", "or": "and", "add": "mul", "sub": "mul", "mul": "add", "div": "sub", "mod": "add",
+                 "eq": "lt", "ne": "add", "lt": "eq", "ge": "and"}
+        for p, sp in zip(_positions(r, n, r.randrange(0, 4)), specials):
+            # a group of the neighbouring precedence level, or a drawn special
+            items[p] = (("bool" if other[fam[0]] in ("and", "or") else "cmp" if other[fam[0]] in ("eq", "lt") else "bin"),
+                        other[fam[0]], items[p], small[0]) if r.random() < 0.6 else sp
+        shape = r.randrange(4)
+        if shape < 2:
+            t = items[0]
+            for x in items[1:]:
+                t = (kind, r.choice(fam), t, x)
+            return t
+        if shape == 2:
+            t = items[-1]
+            for x in reversed(items[:-1]):
+                t = (kind, r.choice(fam), x, t)
+            return t
+
+        def bal(xs):
+            if len(xs) == 1:
+                return xs[0]
+            m = len(xs) // 2
+            return (kind, r.choice(fam), bal(xs[:m]), bal(xs[m:]))
+        return bal(items)
+    if dim == "nest":
+        t = specials[0]
+        wraps = r.choice([["not"], ["neg"], ["paren"], ["call"], ["not", "neg", "paren", "call", "list", "lambda"],
+                          ["concat"], ["paren", "not"], ["lambda"]])
+        for i in range(n):
+            w = r.choice(wraps)
+            if w == "not":
+                t = ("un", "not", t)
+            elif w == "neg":
+                t = ("un", "neg", t)
+            elif w == "paren":
+                # forces parentheses in the minimal print: a lower level under a higher one
+                t = ("bin", "mul", ("bin", "add", t, small[i % 3]), small[(i + 1) % 3]) if i % 2 else \
+                    ("bool", "and", ("bool", "or", small[i % 3], t), small[(i + 1) % 3])
+            elif w == "call" and cfg.calls:
+                t = ("call", r.choice(["tolower", "toupper", "trim", "length"]), (), (t,))
+            elif w == "concat" and cfg.calls:
+                t = ("call", "concat", (), (t, small[i % 3])) if i % 2 else ("call", "concat", (), (small[i % 3], t))
+            elif w == "list":
+                t = ("cmp", "in", small[i % 3], ("list", (t, small[(i + 1) % 3])))
+            elif w == "lambda" and cfg.lambdas:
+                var = "q%d" % i
+                t = ("lambda", ("path", ident("o%d" % i), "items"), r.choice(["any", "all"]), var,
+                     ("bool", "and", ("cmp", "eq", ("path", ident(var), "k"), small[i % 3]), t))
+            else:
+                t = ("un", "not", t)
+        return t
+    if dim == "hops":
+        segs = [r.choice(SAFE_NAMES) for _ in range(n)]
+        t = ident(r.choice(SAFE_NAMES), r.choice([(), (), ("ns",), ("my", "pkg")]) if cfg.namespaced_ids else ())
+        for sname in segs:
+            t = ("path", t, sname)
+        k = r.randrange(6)
+        if k == 0 and cfg.lambdas:
+            return ("lambda", t, "any", "z", ("cmp", "eq", ("path", ("path", ident("z"), "a"), "b"), small[0]))
+        if k == 1 and cfg.calls:
+            return ("call", "f", ("ns",), (t, small[0]))
+        if k == 2:
+            return ("cmp", "in", t, ("list", (small[0], t)))
+        return ("cmp", r.choice(["eq", "ne", "lt"]), t, small[0])
+    if dim == "name":
+        base = r.choice(["a", "Z9_", "null", "not", "x_", "eq"])
+        name = (base * 200)[:n]
+        k = r.randrange(5)
+        if k == 0 and cfg.namespaced_ids:
+            # the whole dotted token has length n
+            ns1 = name[: n // 3]
+            rest = name[n // 3 + 1:]
+            return ("cmp", "eq", ident(rest, (ns1,)), small[0]) if rest else ("cmp", "eq", ident(name), small[0])
+        if k == 1 and cfg.calls:
+            return ("call", name[:n - 3], ("ns",), (small[0],))   # "ns." counts towards the 128 of the token
+        if k == 2:
+            return ("cmp", "eq", ("path", ident("a"), name), small[0])
+        if k == 3 and cfg.calls and cfg.named:
+            return ("call", "f", ("ns",), (("named", name, small[0]),))
+        return ("cmp", "eq", ident(name), small[0])
+    if dim == "digits":
+        d0 = r.choice("123456789")
+        body = "".join(r.choice("0123456789") for _ in range(n - 1))
+        k = r.randrange(6)
+        if k == 0:
+            lit = ("lit", "int", d0 + body)
+        elif k == 1:
+            lit = ("lit", "int", "-" + d0 + body)
+        elif k == 2:
+            lit = ("lit", "int", "0" * (n - 2) + d0 + body[:1])
+        elif k == 3:
+            cut = r.randrange(1, n)
+            lit = ("lit", "float", (d0 + body)[:cut] + "." + ((d0 + body)[cut:] or "0"))
+        elif k == 4:
+            lit = ("lit", "float", d0 + "." + body + r.choice(["e3", "E3", "e-2", "E+10"]))
+        else:
+            lit = ("lit", "int", r.choice([str(2 ** 53 + 1), str(2 ** 63 - 1), str(-2 ** 63), str(2 ** 63), str(2 ** 64),
+                                           str(2 ** 31), str(-2 ** 63 - 1), str(10 ** 18), str(10 ** 19)]))
+        return ("cmp", r.choice(["eq", "lt", "ge"]), small[0], lit) if r.random() < 0.7 else \
+            ("cmp", "in", small[0], ("list", (lit, small[1])))
+    if dim == "strlen":
+        unit = r.choice(["'", "%", "_", "\\", "a", "'a", "%_", " ", "  x", "\"", "é", "ab'"])
+        text = (unit * n)[:n]
+        lit = ("lit", "str", text)
+        k = r.randrange(6)
+        if k == 0 and cfg.calls:
+            return ("call", r.choice(["contains", "startswith", "endswith"]), (), (small[0], lit))
+        if k == 1:
+            return ("cmp", "in", small[0], ("list", (lit, small[1])))
+        if k == 2 and cfg.calls:
+            return ("call", "concat", (), (lit, small[0]))
+        return ("cmp", r.choice(["eq", "ne"]), small[0], lit)
+    raise ValueError(dim)
